@@ -9,4 +9,5 @@ func registerStreams(m map[string]Stream) {
 	m["resp"] = respStream{}
 	m["mux"] = muxStream{}
 	m["tdbind"] = tdBindStream{}
+	m["c05"] = c05Stream{}
 }
